@@ -64,4 +64,16 @@ CHECKS.update({
 })
 CHECKS["C08"]["text"] += " Second half: a wire monitor in the network simulator checks for every datagrams_to_send call of real endpoints that the in-flight bytes put on the wire do not exceed the congestion window left before the call (one datagram more when a probe was armed), and that bytes_in_flight equals the tracked in-flight packets."
 CHECKS["C08"]["technique"] += " + wire monitor in a virtual-time network simulator"
+CHECKS.update({
+ "C05": {
+  "technique": "stateful generation-based and mutation-based fuzzing with Hypothesis (totality oracle), incl. a key-holding peer built on an independent QUIC implementation",
+  "text": "Connection states are produced by real handshakes (fresh server, client after connect, after each handshake flight, connected with streams, after key update / CID change, closing). Inputs: arbitrary datagrams; genuine datagrams mutated, truncated, extended, re-versioned and re-coalesced; packets protected by a key-holding peer (vlib/takeover.py + vlib/refquic.py) carrying frames of every type with boundary values, truncations, unknown / non-minimal types, bursts of hundreds of packets with gaps, NEW_CONNECTION_ID / RETIRE_CONNECTION_ID histories, post-handshake TLS messages, interleaved with timer firings, acknowledgements and application calls. After every input all five public calls are exercised, then timers are run to termination; any escaping exception is a violation, bucketed by (type, innermost aioquic function).",
+  "note": "Handshake-time TLS messages from a key-holding TLS peer (missing/duplicate/oversized fields, malformed key shares and certificates) are covered by the tasks named tls-* when present in the evidence. Caller contract: Sans-IO cycle, timers only when due.",
+ },
+ "C18": {
+  "technique": "model-based testing with Hypothesis: histories driven by a key-holding peer against a reference model of both connection-ID sets",
+  "text": "After a real handshake the peer is frozen and the harness speaks in its place with the peer's keys (independent implementation): NEW_CONNECTION_ID frames with small sequence numbers (duplicates, reordering) and arbitrary retire_prior_to, RETIRE_CONNECTION_ID, DCID switches among the IDs the SUT issued, local change_connection_id(), withheld acknowledgements (loss), for peer limits 2/3/4/8 and both roles; then a fair phase. The decrypted wire is judged by a model: DCID sequence >= max retire_prior_to processed, no use of an ID after announcing its retirement, every abandoned ID announced in an acknowledged RETIRE frame, <= 8 peer IDs held, outstanding issued IDs <= the peer's limit, each outstanding ID still accepted, retired IDs replaced by delivered NEW frames.",
+  "note": "The peer's active_connection_id_limit is set on the genuine peer object before the handshake (not configurable). IDs never adopted may be retired or ignored.",
+ },
+})
 PENDING = {}
